@@ -355,7 +355,12 @@ class Model:
                     for kw in d.keywords:
                         if kw.arg == "frozen" and isinstance(kw.value, ast.Constant):
                             c.dataclass_frozen = bool(kw.value.value)
+        body = list(node.body)
+        # declarations for the type checker only (`if TYPE_CHECKING: names: List[str]`) tell what the attributes are
         for st in node.body:
+            if isinstance(st, ast.If) and "TYPE_CHECKING" in ast.unparse(st.test):
+                body += [x for x in st.body if isinstance(x, ast.AnnAssign) and x.value is None]
+        for st in body:
             if isinstance(st, (ast.FunctionDef, ast.AsyncFunctionDef)):
                 fq = f"{q}.{st.name}"
                 fi = FuncInfo(fq, st.name, m.name, q, st, self._decos(st))
